@@ -103,6 +103,13 @@ def oracle(run, P):
     am = cc.addrmap_of(cfg)
     align = am.align
     fs = []
+    # a converted / crossing port is a view of the SAME memory: the address range it declares times its word size is the size of the memory
+    for pi, (p, pc) in enumerate(zip(run.dut.ports, cfg["ports"])):
+        n = run.dut.crossbar.masters[pi]            # the native port get_port() created for this user port
+        if (1 << p.address_width) * p.data_width != (1 << n.address_width) * n.data_width:
+            fs.append(dict(clause=P + ".core_port_address_range", key=_kind(pc, W), what="port %d (%d-bit words, %d address bits) declares %d bits of memory, the native port behind it (%d-bit words, %d address bits) %d bits" % (
+                pi, p.data_width, p.address_width, (1 << p.address_width) * p.data_width, n.data_width, n.address_width, (1 << n.address_width) * n.data_width)))
+            return fs
 
     def bg(ca, width):
         rk, bk, rw, col = am.decode(ca)
